@@ -282,10 +282,10 @@ def r6(ctx, prog, eng, ctxs):
 def run(ctx):
     prog = extract('ALL' if ctx.tier == 'thorough' else SCOPE)
     eng, ctxs, backend = setup(prog)
-    r1(ctx, prog, eng, ctxs)
-    r2(ctx, prog, eng)
-    r3(ctx, prog, eng, ctxs, backend)
-    r4(ctx, prog, eng)
-    r5(ctx, prog, eng, backend)
-    r6(ctx, prog, eng, ctxs)
+    ctx.guard(r1, ctx, prog, eng, ctxs)
+    ctx.guard(r2, ctx, prog, eng)
+    ctx.guard(r3, ctx, prog, eng, ctxs, backend)
+    ctx.guard(r4, ctx, prog, eng)
+    ctx.guard(r5, ctx, prog, eng, backend)
+    ctx.guard(r6, ctx, prog, eng, ctxs)
     return prog
